@@ -1434,6 +1434,11 @@ def evalExprF (r : Rec) (env : Env) (e : Expr) : M Val :=
     liftP (locateP loc (resolveIndex bv iv none))
   | .slice loc base i j => do
     let bv ← r.evalExpr env base
+    -- only strings, slices (and arrays, outside the model) can be sliced: checked before the bounds are evaluated
+    (match bv with
+      | .slice _ _ _ | .str _ | .bytes _ => pure ()
+      | .opaque _ | .hidden _ | .errv _ _ | .intsRanger _ _ => unsupported "slice of this kind"
+      | _ => errAt base.loc "cannot slice")
     let numOf (x : Expr) : M Int := do
       let v ← r.evalExpr env x
       match v with
@@ -1449,9 +1454,7 @@ def evalExprF (r : Rec) (env : Env) (e : Expr) : M Val :=
       | .slice es _ _ => pure es.length
       | .str s => pure s.length
       | .bytes s => pure s.length
-      | .smap es _ _ => pure es.length
-      | .opaque _ | .hidden _ | .errv _ _ | .intsRanger _ _ => unsupported "slice of this kind"
-      | _ => errPlain "reflect: call of reflect.Value.Len on a Value that has no length"  -- *reflect.ValueError
+      | _ => crash "unreachable: length of a value that cannot be sliced"
     let hi ← (match j with
       | some x => numOf x
       | none => do let n ← lenOf; pure (n : Int))
@@ -1461,13 +1464,19 @@ def evalExprF (r : Rec) (env : Env) (e : Expr) : M Val :=
       | .slice es ifc nl => pure (.slice ((es.drop lo.toNat).take (hi - lo).toNat) ifc (nl && false))
       | .str s => pure (.str ((s.drop lo.toNat).take (hi - lo).toNat))
       | .bytes s => pure (.bytes ((s.drop lo.toNat).take (hi - lo).toNat))
-      | _ => errPlain "reflect: call of reflect.Value.Slice on map Value"  -- *reflect.ValueError
+      | _ => crash "unreachable: slice of a value that cannot be sliced"
+
+/-- `notNil` on a value the model knows; values outside the model may be nil funcs, channels, ... -/
+def notNilP (v : Val) : P Bool :=
+  match v with
+  | .opaque _ => unsupported "isset of a value outside the model"
+  | v => pure (Val.notNil v)
 
 def isSetFieldPath : Val → List Bytes → P Bool
   | _, [] => pure true
   | v, f :: rest => do
     let x ← resolveIndex v .invalid (some f)
-    if !Val.notNil x then pure false else isSetFieldPath x rest
+    if !(← notNilP x) then pure false else isSetFieldPath x rest
 
 /-- the body of `Runtime.isSet`, before its `recover()` -/
 def isSetBody (r : Rec) (env : Env) (e : Expr) : M Bool :=
@@ -1480,10 +1489,10 @@ def isSetBody (r : Rec) (env : Env) (e : Expr) : M Bool :=
     let bv ← r.evalExpr env base
     let iv ← r.evalExpr env idx
     let x ← liftP (resolveIndex bv iv none)
-    pure (Val.notNil x)
+    liftP (notNilP x)
   | .ident _ name => do
     match ← resolve env name with
-    | some v => pure (Val.notNil v)
+    | some v => liftP (notNilP v)
     | none => pure false
   | .field _ names => do
     let rt ← getRT
@@ -1491,7 +1500,7 @@ def isSetBody (r : Rec) (env : Env) (e : Expr) : M Bool :=
   | .chain _ base fields => do
     let bv ← r.evalExpr env base
     let x ← liftP (evalChainFields bv fields)
-    pure (Val.notNil x)
+    liftP (notNilP x)
   | _ => pure true
 
 /-- Go's catch-all `recover()` in isSet: any panic means "not set"; the handler resets scope,
